@@ -108,6 +108,14 @@ def finish(chk, broken, dis, blocks, impl_raw, extra=None):
 
 # ---- C06 / C18: search histories sharing a table -------------------------------------------------------------
 
+MATE_ROOTS = [
+    "6k1/5ppp/8/8/8/8/5PPP/R5K1 w - - 0 1", "6k1/5ppp/8/8/8/8/8/R3K3 w Q - 0 1", "k7/P7/2K5/8/8/8/8/8 w - - 0 1",
+    "7k/5Q2/6K1/8/8/8/8/8 w - - 0 1", "7k/3Q4/6K1/8/8/8/8/8 w - - 0 1", "8/k7/7R/2KR4/8/8/8/8 w - - 0 1",
+    "rnbqkbnr/pppp1ppp/8/4p3/6P1/5P2/PPPPP2P/RNBQKBNR b KQkq - 0 2", "r1bqkb1r/pppp1ppp/2n2n2/4p2Q/2B1P3/8/PPPP1PPP/RNB1K1NR w KQkq - 4 4",
+    "4r3/8/8/k7/8/8/3r4/7K b - - 0 1", "1k6/8/2R5/2K2R2/8/8/8/8 w - - 0 1", "2R5/8/7R/k7/8/8/8/K7 w - - 0 1",
+]
+
+
 def history_scripts(tier, seed):
     rng = Rng(seed * 7 + 1)
     n = 24 if tier == "quick" else 400
@@ -132,6 +140,11 @@ def history_scripts(tier, seed):
                     lines.append("pick %d" % rng.below(1 << 40))
                 # else: search the same position again (shallower or deeper)
         blocks.append(lines)
+    # the position a search has just mated or stalemated in, asked about shallowly with the table kept
+    for j, f in enumerate(MATE_ROOTS if tier == "thorough" else MATE_ROOTS[:7]):
+        for d in (3, 4):
+            blocks.append(["# m%d_%d" % (j, d), "cleartable", "new " + f, "obs", "search %d -1 0" % d, "playbest",
+                           "obs", "search 1 -1 0", "obs", "search 2 -1 0", "playbest", "obs", "search 1 -1 0"])
     return blocks
 
 
@@ -361,8 +374,13 @@ def limit_scripts(tier, seed):
         # a prefix of searches that leaves entries (in particular exact root entries) behind
         for _ in range(1 + rng.below(3)):
             lines += ["obs", "search %d -1 0" % (1 + rng.below(4 if tier == "quick" else 5))]
-            if rng.chance(1, 3):
+            r = rng.below(6)
+            if r <= 1:
                 lines.append("playbest")
+            elif r <= 3:
+                # a reply the engine did not expect: the new root is cached as a bound, not as an exact result
+                lines.append("pick %d" % rng.below(1 << 40))
+                lines += ["obs", "search %d -1 0" % (1 + rng.below(2))]      # a limit below whatever bound is cached for it
         # limits below, at and above what is cached
         for _ in range(3):
             lines += ["obs", "search %d -1 0" % (1 + rng.below(5 if tier == "quick" else 6))]
@@ -398,7 +416,7 @@ def check_C08(chk):
                 if ev["kind"] == "crash":
                     if nfail < 5:
                         nfail += 1
-                        chk.violation("the search crashed (%s build): %s" % (which, ev["raw"]),
+                        chk.violation(("the search did not end by itself (%s build): %s" if "no answer within" in ev["raw"] else "the search crashed (%s build): %s") % (which, ev["raw"]),
                                       {"script": blk[1:], "line": ev["raw"], "build": which, "kind": "crash of the implementation"})
                 elif ev["kind"] == "search":
                     lim = limits[k] if k < len(limits) else None
@@ -422,7 +440,10 @@ def check_C08(chk):
                         stats["limit_above_cached"] += 1
                         nontrivial.add((gid, k, "above"))
                     bad = None
-                    if depths != list(range(first, first + len(depths))):
+                    polls = int(ev["kv"].get("polls", "0"))
+                    if first > lim and polls > 0:
+                        bad = "a search limited to depth %d started at depth %d and really searched there (%d nodes entered): only a cached exact result may be returned from deeper than the limit" % (lim, first, polls)
+                    elif depths != list(range(first, first + len(depths))):
                         bad = "iteration depths are not consecutive: %s" % depths
                     elif depths[-1] > max(lim, first):
                         bad = "a search limited to depth %d went on to depth %d (first iteration %d)" % (lim, depths[-1], first)
